@@ -58,7 +58,7 @@ COLOR_STRS = ("red", "tab:blue", "#00aa55", "k", "orange", "purple")
 
 def plan(tier):
     if tier == "quick":
-        return {"draw": 240, "layout": 300}
+        return {"draw": 200, "layout": 250}
     return {"draw": 40000, "layout": 48000}
 
 
